@@ -9,10 +9,14 @@ Tie (both kinds):
   residual, the four orthogonality self-checks, `K_tensor`, the Burgers closure and the fields at sample points
   (with `np.log(eta)` values as inputs); orientation handling (`__mn_check`, `axes_check`, `__find_transform`,
   rotation of `C` and `b`) and the isotropic closed form (generated definitions + hand-written plumbing) are
-  compared the same way.
+  compared the same way; the entry point solve_volterra_dislocation (try Stroh, fall back to the isotropic solver on
+  ValueError) and the isotropic solver's acceptance test (isotropic constants, Burgers vector in the slip plane) are
+  compared with the model's `dispatch` / `isoInPlaneOk` over a sweep of the anisotropy from 0 to 0.1.
 Search: the property's clauses on the REAL code: finite-difference symmetric gradient, C:strain (exact Fractions),
 divergence, Burgers circuit / continuity, 1/r, K real-symmetric-positive-definite (exact Sylvester minors),
-covariance under rational rotations, refusals of non-unit / non-orthogonal axes, isotropic limit.
+covariance under rational rotations, refusals of non-unit / non-orthogonal axes; the dispatcher over the whole
+anisotropy range with general Burgers vectors (jump = b, returned class, distance to an independent complete closed-form
+isotropic solution, continuity in the anisotropy); solve -> read -> solve -> read sequences on one object.
 
 What is generated (straight-line arithmetic, regenerated from /repo's working tree on every run):
   isoDisp_m / isoDisp_n / isoDisp_ξ   displacement components along m, n, ξ
@@ -366,7 +370,9 @@ def quat_rot(q):
 
 
 QUATS = [(1, 0, 0, 0), (2, 1, 0, 0), (3, 0, 1, 0), (1, 1, 1, 0), (2, 0, 0, 1), (1, 2, 3, 4), (3, 1, -1, 2), (1, 1, 1, 1),
-         (5, 2, 0, -1), (4, -1, 2, 2), (7, 1, 0, 0), (2, 3, -1, 1), (1, 0, 0, 1), (1, 0, 1, 0), (0, 1, 1, 0)]
+         (5, 2, 0, -1), (4, -1, 2, 2), (7, 1, 0, 0), (2, 3, -1, 1), (1, 0, 0, 1), (1, 0, 1, 0), (0, 1, 1, 0),
+         # rotations close to the identity (angles 0.01, 0.024, 0.002 rad) and close to a half turn
+         (200, 1, 0, 0), (100, 1, 2, -1), (1000, 0, 1, 0), (1, 200, 0, 0)]
 INT_AXES = [[[1, 0, 0], [0, 1, 0], [0, 0, 1]], [[1, 1, 0], [-1, 1, 0], [0, 0, 1]], [[1, -1, 0], [1, 1, -2], [1, 1, 1]],
             [[1, 1, -2], [1, 1, 1], [1, -1, 0]], [[2, 0, 0], [0, 0.5, 0], [0, 0, 3]], [[0, 1, 0], [0, 0, 1], [1, 0, 0]],
             [[1, 2, 2], [2, 1, -2], [-2, 2, -1]], [[1, 0, 1], [0, 2, 0], [-1, 0, 1]]]
@@ -376,6 +382,22 @@ BOXES = [None, [[4.0, 0, 0], [0, 4.0, 0], [0, 0, 4.0]], [[3.0, 0, 0], [0, 3.0, 0
 MILLER = [([1, -1, 0], [1, 1, 1]), ([1, 1, -2], [1, 1, 1]), ([1, 0, -1], [1, 1, 1]), ([0, 0, 1], [1, 1, 0]),
           ([1, 1, 1], [1, -1, 0]), ([1, 0, 0], [0, 1, 0]), ([0, 1, 0], [0, 0, 1]), ([1, -1, 1], [1, 1, 0]),
           ([1, 1, 0], [0, 0, 1]), ([2, -1, 0], [1, 2, 1]), ([1, 2, -3], [1, 1, 1]), ([1, 0, 0], [0, 1, 1])]
+# Miller-Bravais [uvtw] / (hkil) for the hexagonal cell BOXES[4] (line in the plane: hu + kv + it + lw = 0)
+MILLER4 = [([1, 1, -2, 0], [0, 0, 0, 1]), ([2, -1, -1, 0], [0, 1, -1, 0]), ([1, -2, 1, 0], [1, 0, -1, 1]),
+           ([2, -1, -1, 0], [0, 0, 0, 1]), ([1, 1, -2, 3], [1, -1, 0, 0]), ([-1, 2, -1, 3], [1, 0, -1, 0])]
+BURGERS4 = [[1 / 3, 1 / 3, -2 / 3, 0.0], [0.0, 0.0, 0.0, 1.0], [1 / 3, 1 / 3, -2 / 3, 1.0], [1 / 3, -2 / 3, 1 / 3, 0.0]]
+
+
+def v3(u):
+    """[uvtw] -> [UVW] = [u - t, v - t, w] (3-index vectors unchanged)."""
+    return [u[0] - u[2], u[1] - u[2], u[3]] if len(u) == 4 else list(u)
+
+
+def p3(h):
+    """(hkil) -> (hkl)."""
+    return [h[0], h[1], h[3]] if len(h) == 4 else list(h)
+
+
 MN_STR = [('x', 'y'), ('y', 'z'), ('z', 'x'), ('y', 'x'), ('x', 'z'), ('z', 'y')]
 
 
@@ -395,30 +417,57 @@ def gen_mn(rng, kind=None):
     return [float(v) for v in R[i]], [float(v) for v in R[j]]
 
 
-def gen_spec(rng, cls=None, route=None, mn=None, aniso=1.0):
+NEAR_IDENTITY = [(200, 1, 0, 0), (100, 1, 2, -1), (1000, 0, 1, 0), (300, -2, 1, 1)]
+
+
+def gen_spec(rng, cls=None, route=None, mn=None, aniso=1.0, near_identity=False, four_index=False):
     cls = cls or rng.choice(CLASSES)
     route = route or rng.choice(['default', 'transform', 'transform', 'axes', 'miller', 'miller'])
+    if near_identity:
+        route = rng.choice(['transform', 'axes'])
+    if four_index:
+        route = 'miller'
     scale = rng.choice([1.0, 1.0, 160.25, 0.0078125])
     spec = {'cls': cls, 'cij': gen_cij(rng, cls, aniso=aniso, scale=scale), 'route': route, 'tol': TOL,
             'cart_axes': False, 'box': None, 'transform': None, 'xi_uvw': None, 'slip_hkl': None}
     m, n = gen_mn(rng, mn)
     spec['m'], spec['n'] = m, n
     if route in ('transform', 'axes'):
-        if rng.random() < 0.6:
+        if near_identity:
+            # crystal axes within 0.002 .. 0.025 rad of the solver axes: a rotation that must not be taken for none
+            spec['transform'] = _fl(quat_rot(rng.choice(NEAR_IDENTITY)))
+        elif rng.random() < 0.6:
             spec['transform'] = _fl(quat_rot(rng.choice(QUATS)))
         else:
             spec['transform'] = _fl(rng.choice(INT_AXES))
-        spec['box'] = rng.choice([None, None, BOXES[1]])
-    elif route == 'miller':
+        spec['box'] = rng.choice([None, None, BOXES[1], BOXES[3], BOXES[5]])
+    elif route == 'default':
+        # no orientation argument at all: the Burgers vector is still a crystal vector of the box
+        spec['box'] = rng.choice([None, BOXES[1], BOXES[3], BOXES[5]])
+    four = False
+    if route == 'miller':
         spec['xi_uvw'], spec['slip_hkl'] = rng.choice(MILLER)
-        spec['box'] = rng.choice(BOXES)
+        spec['box'] = BOXES[4] if four_index else rng.choice(BOXES)
+        if spec['box'] is BOXES[4] and (four_index or rng.random() < 0.6):
+            four = True
+            spec['xi_uvw'], spec['slip_hkl'] = rng.choice(MILLER4)
     bs = rng.choice([1.0, 2.5, 0.5])
-    kind = rng.choice(['edge', 'screw', 'mixed', 'climb', 'any', 'crystal'])
+    kind = rng.choice(['edge', 'screw', 'mixed', 'climb', 'any', 'crystal', 'smallcomp'])
     spec['bkind'] = kind
+    if kind == 'smallcomp':
+        # one or two components (along m, n, ξ) small but far above every round-off clean-up threshold
+        f = [rng.choice([1e-3, 1e-5, 1e-6, 1e-7]) * rng.choice([1, -1]) if rng.random() < 0.6 else rng.choice([0.0, 0.5])
+             for _ in range(2)]
+        comps = [1.0] + f
+        rng.shuffle(comps)
+        spec['bframe'] = [bs * c for c in comps]
+        kind = 'frame'
     if kind == 'crystal' or (route == 'miller' and rng.random() < 0.5):
         spec['bkind'] = 'crystal'
         spec['burgers'] = rng.choice([[0.5, -0.5, 0.0], [0.5, 0.0, -0.5], [1.0, 0.0, 0.0], [0.5, 0.5, 0.5],
                                       [0.0, 0.0, 1.0], [1.0, 1.0, 0.0], [0.0, 0.5, 0.5]])
+        if four:
+            spec['burgers'] = list(rng.choice(BURGERS4))
     elif kind == 'any':
         spec['burgers'] = [cm.dyadic(rng, -2, 2, 3) for _ in range(3)]
         if not any(spec['burgers']):
@@ -430,7 +479,7 @@ def gen_spec(rng, cls=None, route=None, mn=None, aniso=1.0):
 
 
 EPS_SWEEP = [0.0, 1e-12, 1e-10, 1e-9, 1e-8, 3e-8, 1e-7, 3e-7, 1e-6, 1e-5, 3e-5, 1e-4, 3e-4, 1e-3, 1e-2, 1e-1]
-SWEEP_BKINDS = ['general', 'general', 'general', 'inplane', 'climb', 'tiny-n', 'small-n']
+SWEEP_BKINDS = ['general', 'general', 'small-comp', 'inplane', 'climb', 'tiny-n', 'small-n', 'general']
 
 
 def iso_cij(lam, mu, scale=1.0):
@@ -505,6 +554,10 @@ def gen_sweep(rng, cls=None, bkind=None):
             be, bs = rng.choice([(be, 0.0), (0.0, bs)])
     elif bkind == 'climb':
         be, bs = rng.choice([(0.0, 0.0), (0.0, bs), (be, 0.0)])
+    elif bkind == 'small-comp':
+        f = [rng.choice([1e-3, 1e-5, 1e-6]) * sg(), rng.choice([1e-3, 1e-6, 0.4]) * sg(), 1.0]
+        rng.shuffle(f)
+        be, bn_, bs = f
     elif bkind in ('tiny-n', 'small-n'):
         m, n = mn_vectors(sw)
         bmax = float(np.abs(be * m + bs * np.cross(m, n)).max())
@@ -737,7 +790,7 @@ def _orientation_case(ctx, spec, s):
                 ctx.disagree('find_transform:frame', f'transform does not map the crystal {nm} axis to the solver {nm} axis', rep)
     # rotation of C and of the Burgers vector
     cij = np.array(spec['cij'], dtype=float)
-    b = np.array(resolve_burgers(spec), dtype=float)
+    b = np.array(v3(resolve_burgers(spec)), dtype=float)       # Miller-Bravais -> Miller is C16's business
     out = ctx.driver.ask(f'orient {cm.fr(tol)} {cm.frs(s.transform)} {cm.frs(box.vects)} {cm.frs(cij)} {cm.frs(b)}')
     ctx.stats.case('rotate-C-b', (tuple(cij.ravel()), tuple(s.transform.ravel()), tuple(b)),
                    sample={'op': 'rotate C, b', **_spec_sample(spec)})
@@ -1055,7 +1108,7 @@ def _refusal_case(ctx, spec):
 def gen_iso_spec(rng):
     # the isotropic solver is for Burgers vectors in the slip plane: always edge / screw / mixed in the solver frame
     spec = gen_spec(rng, cls='isotropic')
-    if not isinstance(spec['burgers'], str) or spec['burgers'] == 'climb':
+    if not isinstance(spec['burgers'], str) or spec['burgers'] in ('climb', 'frame'):
         spec['burgers'] = rng.choice(['edge', 'screw', 'mixed'])
         spec['bkind'] = spec['burgers']
         spec['bsize'] = rng.choice([1.0, 2.5, 0.5])
@@ -1107,7 +1160,7 @@ def correspond(ctx):
     t0 = time.time()
     n_deg = 0
     for it in range(ctx.n(36, 400)):
-        spec = gen_spec(rng, cls=CLASSES[it % len(CLASSES)])
+        spec = gen_spec(rng, cls=CLASSES[it % len(CLASSES)], near_identity=it % 9 == 4, four_index=it % 9 == 7)
         out = _outcome(spec)
         if out != 'ok':
             # exact eigenvalue degeneracy (e.g. line along the six-fold axis) is outside the property's quantifier
@@ -1549,9 +1602,15 @@ def _dispatch_sweep(ctx, sw, rng, clauses=True):
         if eps == 0.0 and inplane == 'yes' and (oI != 'ok' or oA != 'ok' or type(A) is not am.defect.IsotropicVolterraDislocation):
             ctx.violate('dispatch:isotropic', f'isotropic constants, Burgers vector in the slip plane ({label}): isotropic solver '
                         f'{oI} {I if oI != "ok" else ""}, dispatcher {got["auto"]}', rep)
-        if eps >= 1e-2 and oI == 'ok':
-            ctx.violate('iso:accepts-anisotropic', f'IsotropicVolterraDislocation accepts constants with anisotropy {eps} '
-                        f'({sw["dcls"]}-shaped)', rep)
+        if oI == 'ok':
+            # the isotropic solver works with normalised constants: they must be the given medium (its own acceptance
+            # test is a relative 1e-4 per entry)
+            cin = np.array(spec['cij'], dtype=float)
+            dev = float(np.abs(I.C.Cij - cin).max()) / float(np.abs(cin).max())
+            if dev > 2e-4:
+                ctx.violate('iso:accepts-anisotropic', f'IsotropicVolterraDislocation accepts constants with anisotropy {eps} '
+                            f'({sw["dcls"]}-shaped) and solves for a medium that differs from the given one by {dev:.2e} '
+                            f'(relative): given {cin.tolist()}, used {I.C.Cij.tolist()}', rep)
         # (from which eps on Stroh succeeds depends on the orientation: the isotropic N is defective and in symmetric
         #  orientations the eigenvalue splitting grows slower than eps; near-degeneracy is outside the property, so
         #  nothing is demanded here — the outcomes are recorded in the evidence)
@@ -1685,7 +1744,7 @@ def _orientation_oracle(ctx, spec, s):
     m, n = mn_vectors(spec)
     if spec['route'] == 'miller':
         V = [[F(float(v)) for v in r] for r in (spec['box'] or [[1, 0, 0], [0, 1, 0], [0, 0, 1]])]
-        u, hkl = spec['xi_uvw'], spec['slip_hkl']
+        u, hkl = v3(spec['xi_uvw']), p3(spec['slip_hkl'])
         line = [sum(u[i] * V[i][c] for i in range(3)) for c in range(3)]
 
         def cr(a, b):
@@ -1697,7 +1756,7 @@ def _orientation_oracle(ctx, spec, s):
             img = [sum(Tq[i][j] * src[j] for j in range(3)) for i in range(3)]
             ln_ = math.sqrt(float(sum(v * v for v in img)))
             if any(abs(float(img[i]) / ln_ - float(dst[i])) > 1e-9 for i in range(3)):
-                ctx.violate('orientation:miller', f'the transform takes the {nm} of ξ_uvw={u}, slip_hkl={hkl} to '
+                ctx.violate('orientation:miller', f'the transform takes the {nm} of ξ_uvw={spec["xi_uvw"]}, slip_hkl={spec["slip_hkl"]} to '
                             f'{[float(v) / ln_ for v in img]}, not to {list(map(float, dst))}', rep)
     elif spec['transform'] is not None:
         ax = np.array(spec['transform'], dtype=float)
@@ -1726,7 +1785,7 @@ def _orientation_oracle(ctx, spec, s):
     want = np.einsum('ig,jh,km,ln,ghmn->ijkl', T, T, T, T, C4)
     if float(np.abs(s.C.Cijkl - want).max()) > 3 * spec['tol'] * float(np.abs(want).max()):
         ctx.violate('orientation:C', f'stiffness in the solver frame is not the rotated crystal stiffness ({spec["cls"]}, route {spec["route"]})', rep)
-    b0 = np.array(resolve_burgers(spec), dtype=float)
+    b0 = np.array(v3(resolve_burgers(spec)), dtype=float)
     if spec['box'] is not None:
         b0 = b0.dot(np.array(spec['box'], dtype=float))
     wb = T.dot(b0)
@@ -1743,7 +1802,8 @@ def search(ctx, broken):
     n = ctx.n(21, 280) * mult
     for it in range(n):
         iso = it % 4 == 3
-        spec = gen_iso_spec(rng) if iso else gen_spec(rng, cls=CLASSES[it % len(CLASSES)])
+        spec = gen_iso_spec(rng) if iso else gen_spec(rng, cls=CLASSES[it % len(CLASSES)], near_identity=it % 5 == 2,
+                                                      four_index=it % 10 == 6)
         kind = 'iso' if iso else 'stroh'
         try:
             s = build(spec, kind)
@@ -1851,8 +1911,17 @@ PARTIAL = {
         'ellipticity of C and the integral formalism; proved only for the isotropic closed form (iso_K_posdef). Checked on '
         'the real code with exact Sylvester minors.',
     'isotropic limit': 'that the Stroh solution tends to the isotropic closed form as the anisotropy vanishes is a statement '
-        'about the eigen-solver near a triple degenerate eigenvalue: explored on the real code only (difference shrinks '
-        'linearly with the anisotropy).',
+        'about the eigen-solver near a triple degenerate eigenvalue (the isotropic N is defective): explored on the real code '
+        'only, through the entry point solve_volterra_dislocation, for C_iso + eps mu D with D shaped like each crystal class '
+        'and eps = 0, 1e-12 .. 1e-1: whatever is returned is within 3 eps + 1e-7 (relative; observed <= 0.3 eps) of an '
+        'independent complete closed-form isotropic solution for the whole Burgers vector (incl. the component along n) and '
+        'changes by no more than that between neighbouring eps. From which eps on Stroh succeeds depends on the orientation '
+        '(1e-7 .. 1e-2); in between the dispatcher refuses (ValueError) unless the constants pass the isotropic solver\'s '
+        'own test, which is outside the property (near-degeneracy).',
+    'dispatcher': 'dispatch_stroh_first / dispatch_iso_iff / dispatch_none_iff / dispatch_iso_jump are about the model of the '
+        'try/except in solve_volterra_dislocation; its inputs (does Stroh.solve raise, C.is_normal) are outcomes of the real '
+        'code in the correspondence. That Stroh.solve raises exactly when strohAccept fails is tied only in the accepting '
+        'direction (a refused eigen-solver output is not observable from outside).',
     'isotropic solution on the plane x = 0': 'iso_strain_is_symgrad_deriv is stated on the open half-planes x != 0, where '
         'theta() is arctan(y/x) plus a constant (thetaOf_halfplanes); that the special-cased values +-pi/2 on x = 0 make '
         'the displacement continuous (and differentiable) across that plane is not stated in Lean; the continuity oracle '
@@ -1877,6 +1946,14 @@ RULE = ('correspondence: positive-definite stiffness of the 7 crystal classes (i
         'within tol x max of the clean-up threshold are compared with atol 2.5 tol max. distinct = distinct canonical input; '
         'non-trivial = solver accepted (exactly degenerate orientations such as a line along the six-fold axis are counted '
         'but trivial) and, for theta, the point is not within 1e-12 r of the branch in a rotated frame. '
+        'Burgers vectors with one or two components (along m, n, xi) of 1e-3 .. 1e-7 of the largest; every 5th / 9th problem '
+        'has crystal axes within 0.002 .. 0.025 rad of the solver axes; box= also without any orientation argument. '
+        'dispatcher sweeps: isotropic base (lam, mu, scale 1 / 160.25 / 2^-7) + eps mu D, D of max norm 1 shaped like each of '
+        'the 7 classes, eps in {0, 1e-12, 1e-10, 1e-9, 1e-8, 3e-8, 1e-7, 3e-7, 1e-6, 1e-5, 3e-5, 1e-4, 3e-4, 1e-3, 1e-2, 1e-1}, '
+        'all orientation routes, Burgers vector by components along m, n, xi: general (all three 0.3 .. 1.5), small '
+        'components, in-plane, climb only, |b.n| = 0.25 / 0.5 tol max|b| (accepted by the isotropic solver), 2 / 4 tol .. '
+        '1e-3 (refused); Stroh, IsotropicVolterraDislocation and solve_volterra_dislocation are all run at every eps; a sweep '
+        'whose orientation is degenerate even at eps = 0.1 counts as trivial. re-solve sequences: 3 problems on one object. '
         'search: same generators, clauses evaluated on the real code only')
 ASSUMPTIONS = [
     'numpy.linalg.eig returns (p_a, (A_a, L_a)) with N v = p v up to the residual recomputed by the driver on every solved '
@@ -1890,7 +1967,9 @@ ASSUMPTIONS = [
     'Box.vector_crystal_to_cartesian / plane_crystal_to_cartesian (property C16) give the line direction and plane normal; '
     'the search oracle recomputes the plane normal exactly from the reciprocal lattice',
     'ElasticConstants(Cij=...), .Cij, .Cijkl, bulk(), shear(), is_normal, normalized_as (property C11) are used as given; '
-    'Cijkl and transform are modelled (cijkl, toVoigt, rotC) and compared',
+    'Cijkl and transform are modelled (cijkl, toVoigt, rotC) and compared; the value of C.is_normal(\'isotropic\', atol=0, '
+    'rtol=1e-4) is an input of the model\'s dispatch / isoAccept (the search checks independently that an accepted isotropic '
+    'solution uses a medium within 2e-4 of the given one)',
 ]
 TRUSTED = ['numpy.linalg.eig / inv / norm, np.log, np.arctan (values handed to the model, residuals recomputed exactly)',
            'the AST translator for IsotropicVolterraDislocation.py (this module + harness/translate.py)',
@@ -1905,7 +1984,9 @@ MANIFEST = {
             'equation; strain and stress homogeneous of degree -1; displacement jump = b from the completeness relation; '
             'K symmetric, real given conjugate-pair ordering; covariance of the eigen residuals, fields and K under any R '
             'with R^T R = 1; independence of the eigenvector normalisation; isotropic: stress = Hooke(strain), symmetry, 1/r, '
-            'jump = in-plane b, K symmetric positive-definite. Analytic versions with Mathlib\'s complex logarithm / arctan / log: '
+            'jump = b for every Burgers vector the solver accepts (|b.n| <= tol max|b|, repo fix 9765d33; exact for b.n = 0), '
+            'K symmetric positive-definite; solve_volterra_dislocation returns the Stroh solution whenever Stroh solves the '
+            'problem and the isotropic closed form only for isotropic constants with an in-plane Burgers vector. Analytic versions with Mathlib\'s complex logarithm / arctan / log: '
             'strain = symmetric gradient and div stress = 0 as HasDerivAt statements (Stroh over C, isotropic over R), '
             'continuity off the cut, one-sided limits at the cut differ by b. Partial: positive-definite Stroh K, isotropic '
             'limit, ordering of the eigen-solver output (explored / verified on the real code).',
@@ -1913,6 +1994,7 @@ MANIFEST = {
             'are inputs of the model and the residuals of what the theorems assume about them are recomputed exactly by the '
             'driver for every solved problem); the AST translator; float round-off bounded by 1e-11 x sum |terms| in the '
             'correspondence. The search evaluates every clause on the real code (finite differences, exact C:strain, exact '
-            'Sylvester minors, Burgers circuit, rational rotations, malformed axes).',
+            'Sylvester minors, Burgers circuit, rational rotations, malformed axes, the dispatcher over the anisotropy range '
+            '0 .. 0.1 against an independent complete isotropic closed form, re-solve sequences).',
     'technique': 'Lean 4 theorems over a hand-written model + translator-generated closed form + differential correspondence',
 }
